@@ -255,6 +255,12 @@ def replay_truncated(n, content=()):
     f = io.BytesIO()
     ai.SignatureHeader()._write_skeleton(f)
     img = bytes(content) if n < 32 else f.getvalue()
+    if 12 <= n < 32:
+        # the witness fixes the CRC field only up to the collision-free abstraction: store the real CRC of what follows
+        import struct
+        import zlib
+
+        img = img[:8] + struct.pack("<L", zlib.crc32(img[12:])) + img[12:]
     try:
         with py7zr.SevenZipFile(io.BytesIO(img)) as z:
             names = z.getnames()
